@@ -80,7 +80,7 @@ pub fn roundtrip(prop: &str, compressed: bool, frame: &[u8], meta: Option<&Meta>
                     match decode_buf(compressed, &e) {
                         Dec::Got(p2, _) => {
                             let d2 = format!("{:?}", p2);
-                            if d2 != dbg { let pos = dbg.chars().zip(d2.chars()).position(|(a, b)| a != b).unwrap_or(0); st.fail(format!("[{prop}] encode then decode changes the packet near `{}` -> `{}`", dbg.chars().skip(pos.saturating_sub(30)).take(70).collect::<String>(), d2.chars().skip(pos.saturating_sub(30)).take(70).collect::<String>()), id.clone()); }
+                            if d2 != dbg && !meta.map_or(false, |m| m.unrepresentable) { let pos = dbg.chars().zip(d2.chars()).position(|(a, b)| a != b).unwrap_or(0); st.fail(format!("[{prop}] encode then decode changes the packet near `{}` -> `{}`", dbg.chars().skip(pos.saturating_sub(30)).take(70).collect::<String>(), d2.chars().skip(pos.saturating_sub(30)).take(70).collect::<String>()), id.clone()); }
                             match encode_p(compressed, &p2) { Enc::Ok(e2) => if e2 != e { st.fail(format!("[{prop}] re-encoding a decoded frame is not stable"), id.clone()); }, _ => st.fail(format!("[{prop}] second encoding fails"), id.clone()) }
                         },
                         d => st.fail(format!("[{prop}] encoder output does not decode: {}", cls_string(&d)), id.clone()),
@@ -224,7 +224,7 @@ fn enc_string(e: &Enc) -> String { match e { Enc::Ok(b) => format!("ok:{}", hex(
 fn text_slot(k: &Kind, idx: usize) -> Option<(usize, usize, Option<usize>)> {
     let mut off = 2; let mut i = 0;
     for (_, a) in k.fixed { if let Atom::Text { n, .. } = a { if i == idx { return Some((off, *n, None)); } i += 1; } off += width(a); }
-    if let Tail::TextEof { max, align } = k.tail { if i == idx { return Some((off, max, Some(align))); } }
+    if let Tail::TextEof { max, align, .. } = k.tail { if i == idx { return Some((off, max, Some(align))); } }
     None
 }
 
@@ -316,6 +316,9 @@ pub fn run_c11(a: &Args) {
         let id = format!("{} {} {} {}", mode_tag(compressed), ki, idx, hex(text.as_bytes()));
         let (off, n, align) = text_slot(kind, idx)?;
         let raw = matches!(kind.fixed.iter().filter(|(_, a)| matches!(a, Atom::Text { .. })).nth(idx), Some((_, Atom::Text { raw: true, .. })));
+        // does the field use the NUL-terminated writer (regenerated from the source)?
+        let z = match align { None => matches!(kind.fixed.iter().filter(|(_, a)| matches!(a, Atom::Text { .. })).nth(idx), Some((_, Atom::Text { z: true, .. }))), Some(_) => matches!(kind.tail, Tail::TextEof { z: true, .. }) };
+        let room = if z { n - 1 } else { n };
         let encoded: Vec<u8> = if raw { text.as_bytes().to_vec() } else { to_lossy_bytes(text).to_vec() };
         let e = encode_p(compressed, &p);
         if let Enc::Ok(b) = &e {
@@ -323,19 +326,21 @@ pub fn run_c11(a: &Args) {
             match align {
                 None => {
                     // exactly N bytes: the encoded text truncated to N, NUL-padded
-                    let mut want = encoded.clone(); want.truncate(n); want.resize(n, 0);
-                    if field != &want[..] { st.fail(format!("[C11] {} field {idx} holds {} but the encoded text truncated to {n} and NUL-padded is {}", kind.name, hex(field), hex(&want)), id.clone()); }
+                    let mut want = encoded.clone(); want.truncate(room); want.resize(n, 0);
+                    if field != &want[..] { st.fail(format!("[C11] {} field {idx} holds {} but the encoded text truncated to {room} and NUL-padded to {n} is {}", kind.name, hex(field), hex(&want)), id.clone()); }
                 },
                 Some(al) => {
                     if field.len() % al != 0 { st.fail(format!("[C11] {} variable text occupies {} bytes, not a multiple of {al}", kind.name, field.len()), id.clone()); }
                     if field.len() > n { st.fail(format!("[C11] {} variable text occupies {} bytes, more than its maximum {n}", kind.name, field.len()), id.clone()); }
-                    let keep = encoded.len().min(n);
+                    let keep = encoded.len().min(room);
                     if field.len() < keep || field[..keep] != encoded[..keep] || field[keep..].iter().any(|b| *b != 0) { st.fail(format!("[C11] {} variable text is not the encoded text NUL-padded", kind.name), id.clone()); }
+                    let want_len = if z { ((keep + 1 + al - 1) / al * al).min(n) } else { ((encoded.len() + al - 1) / al * al).min(n) };
+                    if field.len() != want_len { st.fail(format!("[C11] {} variable text of {} encoded bytes occupies {} bytes, expected {want_len}", kind.name, encoded.len(), field.len()), id.clone()); }
                 },
             }
             if MUST_TERMINATE.contains(&kind.name) && field.last() != Some(&0) {
                 // known class: the encoded text reaches the field width (fixed) / a multiple of 4 or the maximum (aligned)
-                let in_class = match align { None => encoded.len() >= n, Some(al) => encoded.len() % al == 0 || encoded.len() >= n };
+                let in_class = !z && match align { None => encoded.len() >= n, Some(al) => encoded.len() % al == 0 || encoded.len() >= n };
                 st.fail_class(if in_class { "c11-no-terminator-at-full-width" } else { "" }, format!("[C11] {} text field does not end in NUL for a {}-byte text", kind.name, encoded.len()), id.clone());
             }
             // decoding stops at the first NUL: the same frame with every byte after the first NUL of the field overwritten
